@@ -58,7 +58,7 @@ Kill(H, g) == [h \in 1..Len(H) |-> IF H[h].gen = g THEN [H[h] EXCEPT !.live = FA
 Step ==
   /\ l <= Len(Tr) /\ l' = l + 1 /\ ev' = Tr[l] /\ pre' = Tr[l].pre /\ pv' = ev
   /\ LET e == ev
-         racy == ~Tr[l].w /\ ev.ev \in {"Dial", "Send", "CClose", "Close", "Skipped"} IN
+         racy == (~Tr[l].w /\ ev.ev \in {"Dial", "Send", "CClose", "Close", "Skipped"}) \/ ev.ev = "HoldAdd" IN   \* a held gate: not a quiescent trace any more
      IF e.ev \in {"None", "Exit", "End"}
      THEN UNCHANGED <<beh, advN, cs, reg, hs, rep, gen, closeAt, gf>>
      ELSE IF e.ev = "Reset"
